@@ -58,4 +58,42 @@ std::string check_deps(colvarmodule *m, std::string &sig, long *objects_checked)
   return err;
 }
 
+
+std::string enabled_features(colvardeps *o) {
+  std::string fl; auto const &st = DepsAccess::states(o);
+  for (size_t f = 0; f < st.size() && f < o->features().size(); f++) if (st[f].enabled) fl += o->features()[f]->description + ";";
+  return fl;
+}
+
+std::map<std::string, std::string> module_features(colvarmodule *m) {
+  std::map<std::string, std::string> r;
+  for (colvar *cv : *m->variables()) r["variable " + cv->name] = enabled_features(cv);
+  for (colvarbias *b : m->biases) r["bias " + b->name] = enabled_features(b);
+  return r;
+}
+
+bool feature_difference(std::map<std::string, std::string> const &test, std::map<std::string, std::string> const &twin, std::string &sig, std::string &text) {
+  bool found = false;
+  for (auto const &kv : twin) {
+    auto it = test.find(kv.first);
+    if (it == test.end() || it->second == kv.second) continue;
+    std::set<std::string> fa, fb; std::string cur;
+    for (char ch : it->second) { if (ch == ';') { fa.insert(cur); cur.clear(); } else cur += ch; }
+    for (char ch : kv.second) { if (ch == ';') { fb.insert(cur); cur.clear(); } else cur += ch; }
+    std::string which, how; bool preferred = false;
+    if (fa.count("hide_Jacobian_force") && !fb.count("hide_Jacobian_force")) { which = "hide_Jacobian_force"; how = "on_but_off_in_twin"; preferred = true; }
+    if (which.empty()) for (auto const &f : fb) if (!fa.count(f)) { which = f; how = "off_but_on_in_twin"; break; }
+    if (which.empty()) for (auto const &f : fa) if (!fb.count(f)) { which = f; how = "on_but_off_in_twin"; break; }
+    if (which.empty()) continue;
+    if (!found || preferred) {
+      std::string kind = kv.first.substr(0, kv.first.find(' '));
+      sig = "feature_differs/" + kind + "/" + which + "/" + how;
+      text = kv.first + ": feature \"" + which + "\" is " + (how == "off_but_on_in_twin" ? "off, but on in the twin" : "on, but off in the twin");
+      found = true;
+      if (preferred) return true;
+    }
+  }
+  return found;
+}
+
 }  // namespace sim
